@@ -132,6 +132,30 @@ def framing_records(tier, rng):
         for combo in itertools.islice(itertools.permutations(SNIPPETS, k), 0, 40 if tier == "quick" else 400, 3):
             streams.append(b"".join(combo))
     streams += [bytes(rng.choice(b"\n\r;01a\xc3\xa9\xff") for _ in range(rng.randint(0, 12))) for _ in range(60 if tier == "quick" else 600)]
+    # long lines: a frame padded to a length around every power of two (a buffer or length limit would sit there), LF and CRLF
+    # endings, between two ordinary frames
+    longs = []
+    for p2 in ([64, 128, 256, 512, 1024] if tier == "quick" else [64, 128, 256, 512, 1024, 2048, 4096]):
+        for total in (p2 - 1, p2, p2 + 1):
+            for end in (b"\n", b"\r\n"):
+                head = b"7;255;0;0;17;2.2" if total % 2 else b"1;0;1;0;47;"
+                fill = b" " if total % 2 else b"x"
+                line = head + fill * (total - len(head) - len(end)) + end          # len(line) == total, terminator included
+                line2 = head + fill * (total - len(head)) + end                   # total bytes before the terminator
+                for ln in (line, line2):
+                    longs.append(b"1;0;1;0;23;43\n" + ln + b"255;255;3;0;3;\n")
+    for stream in longs:
+        ref = [seg.decode("utf-8", "replace") for seg in stream.split(b"\n")[:-1]]
+        n = len(stream)
+        ends = [i for i in range(1, n) if stream[i] == 10 or stream[i] == 13 or stream[i - 1] == 13 or stream[i - 1] == 10]
+        cutsets = [[], ends, [i for i in ends if stream[i] == 10], list(range(1, n)) if n <= 700 else list(range(7, n, 7)),
+                   sorted(rng.sample(range(1, n), 5))]
+        for cuts in cutsets:
+            obs = feed_protocol(stream, cuts)
+            F.append([classes(stream), [lid(x) for x in obs], [lid(x) for x in ref]])
+        for cuts in cutsets[:3]:
+            obs = feed_tcp(stream, cuts)
+            F.append([classes(stream), [lid(x) for x in obs], [lid(x) for x in ref]])
     for stream in streams:
         ref = [seg.decode("utf-8", "replace") for seg in stream.split(b"\n")[:-1]]
         n = len(stream)
